@@ -15,7 +15,7 @@ Record cli_result := mkCli {
   stderr_nonempty : bool
 }.
 
-Definition run_fuel_cli : nat := N.to_nat 30000.
+Definition run_fuel_cli : nat := N.to_nat 6000.
 
 (* [files]: the host files (path -> contents); [stdin0]: what is on standard input *)
 Definition cli_run (cfg : config) (files : list (text * text)) (stdin0 : text) (orc0 : oracle) : cli_result :=
